@@ -9,7 +9,8 @@ parsed by then) the names of all elements of all files and all reference texts
 are replaced by opaque symbolic names (equality decided by z3), so one run
 stands for every naming with the same equality pattern and the real lookup
 (ImportURI.__call__ -> PlainName over the model, its loaded models in import
-order, the builtin models) runs on symbolic names.  On every feasible path:
+order, the builtin models; RREL '+m:items' through RRELNavigation.apply) runs
+on symbolic names.  On every feasible path:
   * load-once: the Model object processor ran exactly once per file of the
     closure, and the repositories hold exactly one model per file;
   * identity: every resolved reference *is* an element object of the single
@@ -54,7 +55,38 @@ THOROUGH_SHAPES = {
     'wide': {'main': (['a.m', 'b.m'], 2, 1), 'a.m': (['b.m'], 2, 1), 'b.m': ([], 2, 0)},
     'long-cycle': {'main': (['a.m'], 1, 1), 'a.m': (['b.m'], 1, 1), 'b.m': (['c.m'], 1, 1), 'c.m': (['main', 'a.m'], 1, 1)},
 }
-PROVIDERS = ['PlainNameImportURI', 'FQNImportURI', 'PlainNameImportURI-search-path']
+PROVIDERS = ['PlainNameImportURI', 'FQNImportURI', 'PlainNameImportURI-search-path', 'RREL+m:items']
+
+
+class SymParts(list):
+    """a reference text already split into its (symbolic) name parts: rrel.find takes the parts as a list"""
+
+    def __repr__(self):
+        return '.'.join(map(repr, self))
+
+    __str__ = __repr__
+
+    def __format__(self, spec):
+        return repr(self)
+
+
+def first_match(pi):
+    """FQN-based provider and RREL '+m:': the first element of that name in a file, no uniqueness error"""
+    return PROVIDERS[pi].startswith('FQN') or PROVIDERS[pi].startswith('RREL')
+
+
+def make_provider(pi, wrap=None):
+    """provider instance; wrap(base) -> subclass of the provider's class"""
+    import textx.scoping.providers as P
+    name = PROVIDERS[pi]
+    if name.startswith('RREL'):
+        from textx.scoping.rrel import create_rrel_scope_provider, parse
+        base = type(create_rrel_scope_provider(name[4:]))
+        cls = wrap(base) if wrap else base
+        return cls(parse(name[4:]), None, False)
+    base = getattr(P, name.split('-')[0])
+    cls = wrap(base) if wrap else base
+    return cls(**({'search_path': []} if name.endswith('search-path') else {}))
 
 
 def file_text(fn, spec):
@@ -116,15 +148,14 @@ def explore(item):
             bm = mm.model_from_str('item builtin_i0')
             builtins.add_model(bm)
             del parses[:]
-        base = getattr(P, PROVIDERS[pi].split('-')[0])
-        search = {'search_path': []} if PROVIDERS[pi].endswith('search-path') else {}
-
-        class Prov(base):
-            def __call__(self, obj, attr, obj_ref):
-                if not st['done']:
-                    st['done'] = True
-                    substitute(obj)
-                return base.__call__(self, obj, attr, obj_ref)
+        def wrap(base):
+            class Prov(base):
+                def __call__(self, obj, attr, obj_ref):
+                    if not st['done']:
+                        st['done'] = True
+                        substitute(obj)
+                    return base.__call__(self, obj, attr, obj_ref)
+            return Prov
 
         def substitute(obj):
             from textx import get_model
@@ -143,14 +174,14 @@ def explore(item):
                 for j, (o, a, cref) in enumerate(m._tx_reference_resolver.parser._crossrefs):
                     r = SymName('r_%s_%d' % (re.sub(r'\W', '', rel(m)), j))
                     # the FQN provider splits the reference text into parts: a one-part dotted name
-                    cref.obj_name = symx.SymFQN([r]) if PROVIDERS[pi].startswith('FQN') else r
+                    cref.obj_name = (SymParts([r]) if PROVIDERS[pi].startswith('RREL') else symx.SymFQN([r])) if first_match(pi) else r
                     st['uses'].append((rel(m), o, cref, r))
             if with_builtin:
                 for k, it in enumerate(bm.items):
                     n = SymName('n_builtin_%d' % k)
                     it.name = n
                     st['builtin_items'].append((it, n))
-        mm.register_scope_providers({'*.*': Prov(**search)})
+        mm.register_scope_providers({'*.*': make_provider(pi, wrap)})
         main = os.path.join(tmp, 'main')
         try:
             model = mm.model_from_file(main)
@@ -202,7 +233,7 @@ def explore(item):
                 return Or(*[And(eqt(a[1], r), eqt(b[1], r)) for a, b in itertools.combinations(lv, 2)])
             if failed is not None and r.label != failed:
                 continue
-            fqn = PROVIDERS[pi].startswith('FQN')     # FQN: the first element of that name in a file, no uniqueness error
+            fqn = first_match(pi)     # the first element of that name in a file, no uniqueness error
             if failed is not None:
                 if 'not unique' in outcome[1]:
                     prop = False if fqn else Or(*[And(count2(lv), *[count0(p) for p in levels[:k]])
@@ -336,8 +367,7 @@ def replay_concrete(shape, pi, global_repo, with_builtin, nm):
         mm = metamodel_from_str(GRAMMAR, global_repository=global_repo, builtin_models=builtins)
         if with_builtin:
             builtins.add_model(mm.model_from_str('\n'.join('item %s' % n for n in nm['items'].get('<builtin>', []))))
-        mm.register_scope_providers({'*.*': getattr(P, PROVIDERS[pi].split('-')[0])(
-            **({'search_path': []} if PROVIDERS[pi].endswith('search-path') else {}))})
+        mm.register_scope_providers({'*.*': make_provider(pi)})
         try:
             model = mm.model_from_file(os.path.join(tmp, 'main'))
         except TextXSemanticError as e:
@@ -360,7 +390,7 @@ def replay_concrete(shape, pi, global_repo, with_builtin, nm):
                 target = None
                 for lv in levels:
                     cnt = nm['items'].get(lv, []).count(r)
-                    if cnt == 1 or (cnt > 1 and PROVIDERS[pi].startswith('FQN')):
+                    if cnt == 1 or (cnt > 1 and first_match(pi)):
                         target = (lv, nm['items'][lv].index(r))
                         break
                     if cnt > 1:
@@ -472,6 +502,8 @@ def main():
                         continue
                     if pi == 2 and (shape == 'glob' or (quick and wb)):
                         continue        # search-path imports name single files
+                    if pi == 3 and quick and (shape != 'diamond-cycle' or not wb):
+                        continue
                     items.append((shape, pi, gr, wb, 20000 if quick else 60000))
     results = pmap(explore, items)
     chk.cov['functions_encoded'] = src_hash(P.ImportURI.__call__, P.ImportURI._load_referenced_models, P.ImportURI.load_models,
@@ -483,7 +515,7 @@ def main():
                          'providers': PROVIDERS, 'global_repository': [False, True], 'builtin_model': [False, True],
                          'elements_per_file': '1-2', 'references': '2-3 per graph'}
     chk.cov['stubs'] = ['element names and reference texts are opaque symbolic names, substituted when resolution starts']
-    chk.cov['outside_claim'] = ["GlobalRepo providers and RREL '+m:'", 'search paths', 'other import graphs',
+    chk.cov['outside_claim'] = ["GlobalRepo providers beyond the concrete scenario", 'search paths', 'other import graphs',
                                 'multi-part (qualified) reference names across files']
     chk.assumptions = ['z3 (uninterpreted sort for names); load-once / identity / repeated-load facts are checked '
                        'concretely on every path']
